@@ -69,8 +69,10 @@ def finished_only_when_reaped(ctx, prog, rule):
                    "for the blocking and the non-blocking query alike")
             ctx.ob(rule, "echild.guard", ok, wp.loc(bb, si), "Finished(Undetermined) must be stored under `raw_os_error == ECHILD`")
             # returns Ok from there: the block's successors lead to return without passing an Err assignment
-            rets = [x for x in wp.blocks[bb]["stmts"] if x["k"] == "assign" and x["p"]["l"] == 0 and not x["p"]["proj"]]
-            okret = any(x["r"].get("variant") == "Ok" for x in rets)
+            # whatever is assigned to the return place from the store onwards is Ok (in the same block or at a later join)
+            after = wp.reachable(bb)
+            rv = [(b2, v2) for (b2, s2, v2, r2) in result_variants(wp, M.Explore(wp)) if b2 in after and not (b2 == bb and s2 != "term" and s2 < si)]
+            okret = bool(rv) and all(v2 == "Ok" for _, v2 in rv)
             ctx.ob(rule, "echild.returns-ok", okret, wp.loc(bb, si), "the ECHILD branch must return Ok(())")
         else:
             seen_status = True
